@@ -59,7 +59,16 @@ def corr_implied(ctx):
                 names = [l.name for l in f.levels]
                 return [None if x == "" else names.index(x) for x in col]
             cols = {by_name[str(f.name)]["id"]: to_col(f, results[f.name]) for f in act}
-            for f in implied:
+            # columns are handed to the model once their dependencies' columns are known (an implied factor may be
+            # listed in the design before an implied factor it reads)
+            todo, in_order = list(implied), []
+            have = set(cols)
+            while todo:
+                ready = [f for f in todo if set(by_name[str(f.name)]["window"]["deps"]) <= have] or todo[:1]
+                in_order += ready
+                have |= {by_name[str(f.name)]["id"] for f in ready}
+                todo = [f for f in todo if f not in ready]
+            for f in in_order:
                 fid = by_name[str(f.name)]["id"]
                 req = {"op": "implied", "design": case.desc, "id": fid, "n": n, "lfactor": _lfactor(blk, f),
                        "cols": [[k, v] for k, v in sorted(cols.items())]}
